@@ -2,6 +2,7 @@ package verifsim
 
 import (
 	"bytes"
+	"reflect"
 	"context"
 	"encoding/json"
 	"fmt"
@@ -199,9 +200,12 @@ func planC16(c *Ctx, run int64) *Plan {
 		op.B = Chance(r, 0.5) // raw JSON data instead of Go options
 		mk(op)
 	}
-	muts := []string{"editline", "editparty", "prestamp", "headstamp", "recalc", "sign", "editsource", "notes"}
+	muts := []string{"editline", "editparty", "prestamp", "headstamp", "recalc", "sign", "editsource", "notes", "pokeall", "pokeall"}
 	for i, n := 0, 1+r.IntN(5); i < n; i++ {
 		mk(Op{K: "mut", S: Pick(r, muts), I: int64(r.IntN(4))})
+	}
+	if Chance(r, 0.3) {
+		mk(Op{K: "mut", S: "pokesource"}) // last: the source is unusable afterwards
 	}
 	return p
 }
@@ -238,6 +242,10 @@ func c16parseOpts(op Op) *c16opts {
 		}
 	}
 	return o
+}
+
+func (o *c16opts) onlyType() bool {
+	return o.reason == "" && len(o.ext) == 0 && len(o.stamps) == 0 && o.series == "" && o.date == "" && !o.copyTax
 }
 
 func (o *c16opts) jsonData() []byte {
@@ -488,12 +496,17 @@ func execC16(x *X) {
 			}
 			sb := srcSnap()
 			rb := Marshal(res)
-			what := c16mutate(x, op, src, res)
+			what := ""
+			if p := safely(func() { what = c16mutate(x, op, src, res) }); p != "" {
+				// a panic while operating on a deliberately mangled object is not this property's concern
+				x.Probe("panic-after-mutation")
+				continue
+			}
 			if what == "" {
 				continue
 			}
 			x.Probe("result-mutated-source-checked")
-			if op.S == "editsource" {
+			if op.S == "editsource" || op.S == "pokesource" {
 				if got := Marshal(res); !bytes.Equal(rb, got) {
 					x.Violate("result-changed-by-source-mutation:"+GDiff(rb, got), "mutating the source (%s) changed the previously returned result; %s\n  history: %s", what, DiffDetail(rb, got), H0)
 					return
@@ -502,6 +515,10 @@ func execC16(x *X) {
 				if got := srcSnap(); !bytes.Equal(sb, got) {
 					x.Violate("source-changed-by-result-mutation:"+op.S+":"+GDiff(sb, got), "mutating the result (%s) changed the source envelope: they share memory; %s\n  history: %s", what, DiffDetail(sb, got), H0)
 					return
+				}
+				if op.S == "pokeall" {
+					res = nil // the result is garbage now; nothing more to do with it
+					resBytes = nil
 				}
 			}
 		}
@@ -701,7 +718,7 @@ func c16checkReplica(x *X, d *Doc, srcTree *JV, src, res *gobl.Envelope, now tim
 // c16mutate mutates the result (or the source) in place through the typed API.
 func c16mutate(x *X, op Op, src, res *gobl.Envelope) string {
 	target := res
-	if op.S == "editsource" {
+	if op.S == "editsource" || op.S == "pokesource" {
 		target = src
 	}
 	inv, _ := target.Extract().(*bill.Invoice)
@@ -755,6 +772,20 @@ func c16mutate(x *X, op Op, src, res *gobl.Envelope) string {
 		_ = res.Calculate()
 		_ = res.Sign(PrivKey(int(op.I)))
 		return "result given a code, recalculated and signed"
+	case "pokeall":
+		// write to every field, map entry and slice slot reachable from the result's document and header
+		n := pokeAll(reflect.ValueOf(inv), 0, map[uintptr]bool{})
+		n += pokeAll(reflect.ValueOf(res.Head), 0, map[uintptr]bool{})
+		if n == 0 {
+			return ""
+		}
+		return fmt.Sprintf("%d fields, map entries and slice slots of the result written in place", n)
+	case "pokesource":
+		n := pokeAll(reflect.ValueOf(inv), 0, map[uintptr]bool{})
+		if n == 0 {
+			return ""
+		}
+		return fmt.Sprintf("%d fields of the source written in place", n)
 	case "notes":
 		if len(inv.Notes) > 0 {
 			inv.Notes[0].Text = "mutated note"
@@ -834,7 +865,14 @@ func c16agree(x *X, what string, src *gobl.Envelope, o *c16opts, lres *gobl.Enve
 			case epCobra:
 				args := []string{what}
 				if what == "correct" {
-					args = append(args, "--data", string(optData))
+					switch {
+					case o != nil && o.onlyType() && o.typ == "credit-note" && x.P.Run%2 == 0:
+						args = append(args, "--credit")
+					case o != nil && o.onlyType() && o.typ == "debit-note" && x.P.Run%2 == 0:
+						args = append(args, "--debit")
+					default:
+						args = append(args, "--data", string(optData))
+					}
 				}
 				args = append(args, "-")
 				so, se := NewSimWriter(x, "stdout"), NewSimWriter(x, "stderr")
